@@ -13,7 +13,7 @@ import (
 func VerifSampleRandomScalar(rand io.Reader) (*secp256k1.Scalar, error) {
 	return sampleRandomScalar(rand)
 }
-func VerifNewDrbgRFC6979(x, e *secp256k1.Scalar) io.Reader { return newDrbgRFC6979(x, e) }
+func VerifNewDrbgRFC6979(x, e *secp256k1.Scalar) io.Reader  { return newDrbgRFC6979(x, e) }
 func VerifHashToScalar(h []byte) (*secp256k1.Scalar, error) { return hashToScalar(h) }
 
 // VerifVerifyAlt runs the SEC 1 4.1.5 (private key) verification path.
